@@ -180,10 +180,22 @@ def xspec_part(ck, model_ok, tier, replay):
                 ck.fail(f"xspec-duplicate-{kinds}-key-accepted", ex)
 
 
+class _StubIO:
+    def wait(self):
+        return 0
+
+    def kill(self):
+        pass
+
+
 class StubGw:
     def __init__(self, spec):
         self.id = spec.id
         self.spec = spec
+        self._io = _StubIO()
+
+    def join(self, timeout=None):
+        pass
 
     def exit(self):
         # as Gateway.exit: a gateway that is no longer a member does nothing
